@@ -627,6 +627,14 @@ class Explorer:
                 if v[0] == "sym" and v[1][0] == "call" and v[1][1].endswith("::index"):
                     return v        # a reference to a sub-slice is represented by the slice term itself
                 return SYM(("refval", r[1]))
+            if r[1] and r[1][0] == "L" and not r[2] and not rv.get("mut"):
+                v0 = st.heap.get((r[1], ()))
+                if v0 is not None and v0[0] == "arr" and all(x[0] == "c" for x in v0[1]):
+                    # `&[..]` of constants: promoted to a static after this MIR phase - the reference outlives the
+                    # temporary and the frame (`buf.get(n..).unwrap_or(&[])` returned from a helper)
+                    root = ("PROM", fr.fn["path"], r[1][2], fr.depth)
+                    st.heap[(root, ())] = v0
+                    return ("ref", root, ())
             return ("ref", r[1], r[2])
         if k == "agg":
             ops = tuple(self.operand(st, fr, o) for o in rv["ops"])
